@@ -167,6 +167,12 @@ func readFullLine(reader *bufio.Reader) (string, error) {
 		l, more, err := reader.ReadLine()
 
 		if err != nil {
+			// The input may end right after a chunk that filled the read
+			// buffer exactly: what has been read so far is the last line
+			if err == io.EOF && len(line) > 0 {
+				return string(line), nil
+			}
+
 			return "", err
 		}
 
